@@ -462,6 +462,26 @@ static void explore_text_inner(void)
 	for (int n = 0; n < nnodes; n++)
 	{
 		size_t i = nodes[n].pos;
+		if (opt_mode == 1)
+		{
+			/* a call with length 0 in this state: asks for more input, reports end 0, changes nothing */
+			struct json_tokener *tok = new_tok();
+			bring(tok, n);
+			struct outcome z;
+			do_call(tok, i, i, &z);
+			if (z.status != ST_CONTINUE)
+			{
+				char a[96];
+				path_str(n, i);
+				mc_violation("empty-chunk-not-continue", "after the calls cut at %s a call with length 0 gives %s", cur_path, oc_str(&z, a, sizeof a));
+			}
+			else if (z.key != nodes[n].key)
+			{
+				path_str(n, i);
+				mc_violation("empty-chunk-changes-state", "after the calls cut at %s a call with length 0 changed the parser's state", cur_path);
+			}
+			json_tokener_free(tok);
+		}
 		for (size_t j = i + 1; j <= TL; j++)
 		{
 			struct json_tokener *tok = new_tok();
@@ -733,7 +753,7 @@ static void fam_scanners(void)
 	{
 		/* UTF-8 lead/continuation bytes inside a string */
 		cur_fam = "F2-utf8";
-		static const unsigned char bs[] = {0x41, 0x7f, 0x80, 0xbf, 0xc2, 0xdf, 0xe0, 0xef, 0xf0, 0xf4, 0xf8, 0xff, '"', '\\'};
+		static const unsigned char bs[] = {0x41, 0x7f, 0x80, 0xbb, 0xbf, 0xc2, 0xdf, 0xe0, 0xef, 0xf0, 0xf4, 0xf8, 0xff, '"', '\\'}; /* includes EF BB BF (U+FEFF) */
 		int nb = sizeof bs, maxlen = 4 - d;
 		int idx[8];
 		for (int len = 1; len <= maxlen; len++)
@@ -764,6 +784,8 @@ static void fam_docs(void)
 	cur_fam = "F3-streams";
 	static const char *streams[] = {"1 2", "[]{}", "\"a\"\"b\"", "truefalse", "12", "1/**/2", "{\"a\":1}[2]", "null null", "1.5 2.5", "\"\\ud83d\" \"\\ude00\"",
 	                                "[1] //c\n[2]", "-1-2", "1e5 6", "nullnull", "[\"\xc3\xa9\"]\"\xc3\xa9\"", "{} x", "[1,2", "tru e",
+	                                /* multi-byte characters, among them U+FEFF (a byte order mark when it comes first) */
+	                                "[\"x\xef\xbb\xbfy\",{\"\xef\xbb\xbf\":\"\xe2\x80\xa8\xf0\x9f\x98\x80\"}]", "\xef\xbb\xbf[1]", "[1,\xef\xbb\xbf" "2]",
 	                                /* tokens longer than the scanner's 32/64-byte buffer steps */
 	                                "\"abcdefghijklmnopqrstuvwxyz01234\\u00e9abcdefghijklmnopqrstuvwxyz0123456\\ud83d\\ude00z\"",
 	                                "{\"abcdefghijklmnopqrstuvwxyz0123456789\":[\"abcdefghijklmnopqrstuvwxyz012345\\n\"]}",
